@@ -1,5 +1,6 @@
 import NxProofs.Admission
 import NxProofs.HonestPath
+import NxProofs.LoginPath
 import NxProps.C04
 
 /-!
@@ -93,6 +94,29 @@ theorem honest_holder_is_admitted (s : Settings) (cfg : Prudp.Cfg) (kc : Nex.Ker
     ∃ resp, env.loginRequest (c.buildConnectionRequest env) key now = .ok (t.source, cr.cid, t.sessionKey, resp) ∧
       c.checkConnectionResponse resp = none :=
   honest_path s cfg kc epoch tz key ticketKey t tb c cr now ts hT hcreds hint hsk hpid hps hps' hpr hcid hchk hkey htl hts hfresh
+
+/-- **composition with the back-end login (C17)**: whenever `BackEndClient.login` (the `Backend.plan` model) ends in a connection and
+    the authentication server followed the protocol (the final ticket is a reference-built server ticket under this server's key for the
+    user id of the login response, with the client ticket's session key, not older than 120 s), this server's login check admits the
+    connection request built from those credentials as exactly the user id the authentication server issued. -/
+theorem backend_login_is_admitted_as_issued_user (bcfg : Backend.Cfg) (a : Backend.Args) (sc : Backend.Script) (c : Backend.Connect)
+    (h : (Backend.plan bcfg a sc).outcome = .ok c)
+    (s : Settings) (cfg : Prudp.Cfg) (kc : Nex.Kerberos.Cfg) (epoch : Nat) (tz : Int)
+    (key ticketKey : Bytes) (t : Nex.Kerberos.ServerTicket) (conn : Conn) (now : Time) (ts : Int)
+    (hT : Nex.Kerberos.ServerTicket.encrypt kc key ticketKey t = .ok c.ticket.internal)
+    (hsk : c.ticket.sessionKey = t.sessionKey) (hpid : c.pid = t.source)
+    (hcreds : conn.credentials = some (credsOfConnect c))
+    (hps : s.pidSize = kc.pidSize) (hps' : kc.pidSize = 8 ∨ kc.pidSize = 4)
+    (hpr : t.source < (if kc.pidSize = 8 then 18446744073709551616 else 4294967296))
+    (hcid : c.cid < 4294967296) (hchk : conn.connectionCheck < 4294967296)
+    (hkey : Nex.Kerberos.rc4KeyOk t.sessionKey = true) (htl : c.ticket.internal.length < 4294967296)
+    (hts : Nex.DateTime.timestamp tz t.timestamp = .ok ts)
+    (hfresh : ¬ ((ts + 120 - (epoch : Int)) * 1073741824 < (now : Int))) :
+    let env := mkEnv s cfg kc epoch tz
+    ∃ r resp, sc.first = .resp r ∧
+      env.loginRequest (conn.buildConnectionRequest env) key now = .ok (r.pid, r.station.cid, t.sessionKey, resp) ∧
+      conn.checkConnectionResponse resp = none :=
+  login_path bcfg a sc c h s cfg kc epoch tz key ticketKey t conn now ts hT hsk hpid hcreds hps hps' hpr hcid hchk hkey htl hts hfresh
 
 /-! non-vacuity -/
 example : Conn.checkConnectionResponse
